@@ -802,8 +802,9 @@ impl<'a, T: Iterator<Item = PathEl>> DashIterator<'a, T> {
         if self.state == DashState::ToStash {
             // Have looped back without breaking a dash, just play it back
             self.stash.push(PathEl::ClosePath);
-        } else if self.is_active {
-            // connect with path in stash, skip MoveTo.
+        } else if self.is_active && self.state == DashState::Working {
+            // connect with path in stash, skip MoveTo. (In any other state the
+            // stash, if any, belongs to an earlier sub-path.)
             self.stash_ix = 1;
         }
         self.state = DashState::FromStash;
